@@ -44,7 +44,7 @@ def module_source(modname, prog, var):
     v = variants.VARIANTS[var]
     p2, cmap = variants.transform(prog, var)
     decls, macros, rules = render.render_program_items(p2, cmap)
-    return variants.assemble(modname, p2, var, cmap, decls, macros, rules, push_conv)
+    return render.render_consts(p2, cmap) + variants.assemble(modname, p2, var, cmap, decls, macros, rules, push_conv)
 
 
 def main():
